@@ -22,6 +22,7 @@ TStep ==
 TDone == l = Len(T) + 1 /\ PrintT(<<"TRACE-DONE", Len(T), nbad>>) /\ l' = l + 1 /\ UNCHANGED <<st, last, nbad>>
 TNext == TStep \/ TDone
 TSpec == TInit /\ [][TNext]_<<vars, l, nbad>>
-\* the reference's own invariant on every state the implementation was observed in: the keys of a table are unique
-TInv == \A i \in 1..2 : st.kind[i] \in Kinds /\ UniqueKeys(st.c[i])
+\* (key uniqueness of every observed table is part of Match -- ObsShapeOK -- so that a duplicate key is reported as a
+\*  MISMATCH of the step that produced it instead of stopping the validation)
+TInv == \A i \in 1..2 : st.kind[i] \in Kinds
 ================================================================================
